@@ -29,7 +29,9 @@ LeafStructs == {ITEM, S_ATTR, S_ELEM, S_LIST}
 
 \* a string that reaches the serializer through collect_str (a Display type): the same data, another entry point
 STRD == [t |-> "str", disp |-> 1]
-AttrT == {STR, STRD, NUM, BOOL, FLOAT, UNITE, Opt(STR), SList(STR), SList(NUM), SList(STRD)}
+\* items of attribute lists may contain white space (written as character references)
+STRW == [t |-> "str", ws |-> 1]
+AttrT == {STR, STRD, NUM, BOOL, FLOAT, UNITE, Opt(STR), SList(STR), SList(STRW), SList(NUM), SList(STRD)}
 ElemT == {STR, STRD, NUM, BOOL, UNITE, Opt(STR), Opt(NUM), List(STR), List(NUM)}
          \cup LeafStructs \cup {Opt(s) : s \in LeafStructs} \cup {List(s) : s \in LeafStructs}
 TextT == {STR, STRD, NUM, SList(STR), Opt(STR)}
@@ -53,7 +55,7 @@ ValOf(T, i) ==
       [] T.t = "enum" -> EnumVal(T, i)
       [] OTHER -> None
 \* items of space-separated lists: non-empty, no blanks
-ItemOf(T, i) == IF T.t = "num" THEN ValOf(T, i) ELSE IF i = 1 THEN S(<<97>>) ELSE S(<<60, 34>>)     \* a  <"
+ItemOf(T, i) == IF T.t = "num" THEN ValOf(T, i) ELSE IF i = 1 THEN S(<<97>>) ELSE IF "ws" \in DOMAIN T THEN S(<<60, 34, 13, 32>>) ELSE S(<<60, 34>>)     \* a  <"  (+ CR SP in attribute lists)
 \* first: the first variant; second: the text variant if there is one, else the last variant
 EnumVal(T, i) ==
     LET pick == IF i = 1 THEN 1
